@@ -167,6 +167,10 @@ def _sig(fifths):
 
 def _mei_event(ev, st, li, nid, open_tie, tie_els, with_ppq, ppq):
     dur_attrs = ' dur="%d"' % ev.dur + (' dots="%d"' % ev.dots if ev.dots else "")
+    if with_ppq and ppq and ev.kind == "grace":
+        v = Fraction(4, ev.dur) * ppq  # the notated value; a grace note takes no time whatever this attribute says
+        if v.denominator == 1:
+            dur_attrs += ' dur.ppq="%d"' % int(v)
     if with_ppq and ppq and ev.kind != "grace":
         v = ev.quarters() * ppq
         assert v.denominator == 1
@@ -241,10 +245,10 @@ def kern_token(ev):
 KERN_KEYS = {0: "", 1: "f#", 2: "f#c#", 3: "f#c#g#", 4: "f#c#g#d#", -1: "b-", -2: "b-e-", -3: "b-e-a-", -4: "b-e-a-d-"}
 
 
-def to_kern(doc):
+def to_kern(doc, same_part=False):
     """one **kern spine per staff (lowest staff first, as the format prescribes: spines are written bottom-up), layers: first layer only"""
     staves = list(reversed(doc.staves))
-    rows = [["**kern"] * len(staves), ["*staff%d" % st.n for st in staves], ["*clef%s%d" % st.clef for st in staves],
+    rows = [["**kern"] * len(staves)] + ([["*part1"] * len(staves)] if same_part else []) + [["*staff%d" % st.n for st in staves], ["*clef%s%d" % st.clef for st in staves],
             ["*k[%s]" % KERN_KEYS[st.key] for st in staves], ["*M%d/%d" % st.meter for st in staves]]
     nmeas = len(staves[0].measures)
     for i in range(nmeas):
@@ -321,6 +325,9 @@ def catalogue(tier="quick"):
                                    Staff(2, clef=("F", 4), measures=[[[N("C", 3, 2), N("G", 2, 4, 1), N("A", 2, 8)]], [[N("F", 2, 1)]]])]), both))
     out.append(("two_staves_key_meter", Doc([Staff(1, key=-3, meter=(3, 4), measures=[[[N("E", 5, 4, alter=-1), N("D", 5), N("C", 5)]], [[N("B", 4, 2, 1, alter=-1)]]]),
                                              Staff(2, clef=("F", 4), key=-3, meter=(3, 4), measures=[[[N("C", 3, 2, 1)]], [[N("G", 2, 2), R(4)]]])]), both))
+    out.append(("coarse_lower_fine_upper", Doc([Staff(1, meter=(2, 4), measures=[[[N("C", 5, 8, tuplet=(3, 2)), N("D", 5, 8, tuplet=(3, 2)), N("E", 5, 8, tuplet=(3, 2)), N("F", 5, 8), N("G", 5, 8)]],
+                                                                                  [[N(s_, 5, 16, tuplet=(5, 4)) for s_ in "CDEFG"] + [N("A", 5)]]]),
+                                                 Staff(2, clef=("F", 4), meter=(2, 4), measures=[[[N("C", 3), N("D", 3)]], [[N("E", 3), N("G", 3)]]])]), both))
     out.append(("pickup", Doc([Staff(1, measures=[[[N("G", 4)]], [[N("C", 5, 2), N("B", 4, 2)]], [[N("A", 4, 2, 1)]]])], names=["0", "1", "2"]), both))
     out.append(("meter_change", Doc([Staff(1, measures=[[[N("C", 4, 1)]], [[N("D", 4, 2, 1)]], [[N("E", 4, 2, 1)]]], meter_changes={1: (3, 4)})]), both))
     out.append(("octaves_and_accidentals", Doc([Staff(1, measures=[[[N("C", 2, 4, alter=1), N("B", 5, 4, alter=-1), N("F", 6, 4, alter=2), N("E", 1, 4, alter=-2)]],
